@@ -528,7 +528,25 @@ func runFaultCase(reg uint16, fc faultCase, pr *profile) {
 		}
 		firedBefore := f.fired.Load()
 		tgt := p.tgt.value(op.Tgt)
+		// control timer of the harness with the nominal timeout of the request: its lateness measures
+		// how late timers fire in this process right now (CPU starvation by parallel cases)
+		nominal := time.Duration(0)
+		switch op.Kind {
+		case "call":
+			nominal = time.Second
+		case "link", "monitor":
+			nominal = time.Duration(gen.DefaultRequestTimeout) * time.Second
+		}
+		var ctlLate atomic.Int64
+		tStart := time.Now()
+		var ctl *time.Timer
+		if nominal > 0 {
+			ctl = time.AfterFunc(nominal, func() { ctlLate.Store(int64(time.Since(tStart) - nominal)) })
+		}
 		r, ok := p.do(op)
+		if ctl != nil {
+			ctl.Stop()
+		}
 		firedAfter := f.fired.Load()
 		ab, ba := p.bytesAB(), p.bytesBA()
 		ops = append(ops, opLog{Name: op.Name, Err: reasonText(r.Err), DurMs: r.Dur.Milliseconds(), FiredBefore: firedBefore, FiredAfter: firedAfter, AB: ab - baseAB, BA: ba - baseBA})
@@ -553,7 +571,12 @@ func runFaultCase(reg uint16, fc faultCase, pr *profile) {
 				limit = time.Duration(gen.DefaultRequestTimeout+1) * time.Second
 			}
 			if limit > 0 && r.Dur > limit {
-				v.violate("request-hang:"+op.Kind, fmt.Sprintf("%s failed with %q only after %v (timeout + 1 s = %v)", op.Name, r.Err, r.Dur, limit))
+				if late := time.Duration(ctlLate.Load()); late > 300*time.Millisecond {
+					v.notes = append(v.notes, fmt.Sprintf("%s failed after %v (> %v), but the harness' own %v timer fired %v late: process starved, not judged", op.Name, r.Dur, limit, nominal, late))
+					lateUnderLoad.Add(1)
+				} else {
+					v.violate("request-hang:"+op.Kind, fmt.Sprintf("%s failed with %q only after %v (timeout + 1 s = %v; control timer lateness %v)", op.Name, r.Err, r.Dur, limit, late))
+				}
 			}
 			if !firedAfter {
 				v.notes = append(v.notes, fmt.Sprintf("%s failed before the fault: %v", op.Name, r.Err))
@@ -730,7 +753,7 @@ func hasSig(v *verdict, sig string) bool {
 
 func pp0(pr *profile, i int) opProfile { return pr.Ops[i] }
 
-var setupRetries, droppedResponses, healed, healedOneWay atomic.Int64
+var setupRetries, droppedResponses, healed, healedOneWay, lateUnderLoad atomic.Int64
 
 func posClass(pos string) string {
 	switch pos {
